@@ -296,12 +296,15 @@ operator/ (mpz_class v1, mpz_class v2)
       neg = ! neg;
     }
 
-  if (neg)
-    v1 = v1 + (v2 - 1);
-
   mpz_class ret {v1.m_u / v2.m_u, signedness::unsign};
   if (neg)
-    ret = -ret;
+    {
+      // Round towards negative infinity.  A remainder implies
+      // divisor of at least 2, so the increment can't overflow.
+      if (v1.m_u % v2.m_u != 0)
+	ret = ret + 1;
+      ret = -ret;
+    }
 
   return ret;
 }
